@@ -673,6 +673,73 @@ def try_program(g):
     return prog
 
 
+def recovery_program(g):
+    """error recovery: a statement that raises (NameError via read of / assignment to / compound assignment to an undeclared
+    global; TypeError / ValueError / IndexError from operators, with the failure in the right-hand side or in the target) inside
+    try/catch, then later statements that re-read the same names, re-evaluate the same operands and assign again.
+    S: an assignment whose evaluation raises changes nothing (what its operands did before the failure stays done)."""
+    r = g.r
+    undef = r.choice(['u1', 'u2', 'zz9'])
+    bad = r.choice(['nil', '"s"', '(1, 2)', 'print', '[1]'])              # not a number
+    op = r.choice(['+', '-', '*', '/', '%', '&', '<<'])
+    fail_rhs = r.choice(['1 %s %s' % (op, bad), '-%s' % bad, 'v[9]', 'v[1.5]', '"ab"[7]', '1.5..2', 'nil()', 'w[0][3]', '~%s' % bad,
+                         '%s < 2' % bad, 'und_%d' % r.randint(0, 3)])
+    lines = ['var G = 10; var v = [1, 2, 3]; var w = [[7]]; #[constructor(new)] class C { } var o = C.new(); o.f = 5;',
+             'fn tr(f) { try { print(f()); } catch e { print(type(e)); } }']
+    shapes = []
+    for _ in range(r.randint(2, 4)):
+        k = r.choice(['undef_assign', 'undef_compound', 'undef_read', 'global_rhs', 'global_compound', 'local', 'upvalue', 'index_rhs',
+                      'index_target', 'index_compound', 'field', 'field_compound', 'nested_effect'])
+        shapes.append(k)
+        cop = r.choice(['+', '-', '*', '/'])
+        if k == 'undef_assign':
+            lines.append('try { %s = %s; print("no"); } catch e { print(type(e)); } tr(|| %s); try { %s %s= 1; print(%s); } catch e { print(type(e)); } tr(|| %s);'
+                         % (undef, r.choice(['10', 'G', '"x"']), undef, undef, cop, undef, undef))
+        elif k == 'undef_compound':
+            lines.append('try { %s %s= 2; print("no"); } catch e { print(type(e)); } tr(|| %s); try { %s = 4; } catch e { print(type(e)); } tr(|| %s);'
+                         % (undef, cop, undef, undef, undef))
+        elif k == 'undef_read':
+            lines.append('tr(|| %s + 1); try { G = %s; } catch e { print(type(e)); } print(G); tr(|| %s);' % (undef, undef, undef))
+        elif k == 'global_rhs':
+            lines.append('try { G = %s; print("no"); } catch e { print(type(e)); } print(G); G = G + 1; print(G);' % fail_rhs)
+        elif k == 'global_compound':
+            lines.append('try { G %s= %s; print("no"); } catch e { print(type(e)); } print(G); G %s= 2; print(G);' % (cop, fail_rhs, cop))
+        elif k == 'local':
+            lines.append('{ var l = 3; try { l %s= %s; print("no"); } catch e { print(type(e)); } print(l); try { l = %s; } catch e { print(type(e)); } '
+                         'print(l); l %s= 2; print(l); }' % (cop, fail_rhs, fail_rhs, cop))
+        elif k == 'upvalue':
+            lines.append('fn mk() { var c = 1; return (|| { c %s= %s; return c; }, || { c %s= 3; return c; }, || c); } var p = mk(); '
+                         'tr(p[0]); tr(p[2]); tr(p[1]); tr(p[0]); tr(p[2]);' % (cop, fail_rhs, cop))
+        elif k == 'index_rhs':
+            lines.append('try { v[0] = %s; print("no"); } catch e { print(type(e)); } print(v); v[0] = v[0] + 1; print(v);' % fail_rhs)
+        elif k == 'index_target':
+            lines.append('try { v[%s] = 5; print("no"); } catch e { print(type(e)); } print(v); try { %s[0] = 1; } catch e { print(type(e)); } print(v);'
+                         % (r.choice(['9', '-4', '1.5', 'nil', '"a"', '0..1']), r.choice(['nil', '"str"', '(1, 2)', 'G'])))
+        elif k == 'index_compound':
+            # the language has no `v[i] op= e`; spelled out
+            lines.append('try { v[1] = v[1] %s %s; print("no"); } catch e { print(type(e)); } print(v); v[1] = v[1] %s 2; print(v);' % (cop, bad, cop))
+        elif k == 'field':
+            lines.append('try { o.f = %s; print("no"); } catch e { print(type(e)); } print(o.f); try { o.g = o.nope; } catch e { print(type(e)); } '
+                         'tr(|| o.g); o.f = o.f + 1; print(o.f);' % fail_rhs)
+        elif k == 'field_compound':
+            lines.append('try { o.f %s= %s; print("no"); } catch e { print(type(e)); } print(o.f); o.f %s= 2; print(o.f);' % (cop, bad, cop))
+        else:
+            lines.append('try { v[9] = (v[0] = 50); print("no"); } catch e { print(type(e)); } print(v); '
+                         'try { G = (G = 7) + %s; } catch e { print(type(e)); } print(G); try { w[0][0] = (w[0] = [8]) + 1; } catch e { print(type(e)); } print(w);' % bad)
+    g.shapes.add(('recover',) + tuple(sorted(set(shapes))))
+    for k in shapes:
+        g.shapes.add(('recover1', k))
+    return ' '.join(lines)
+
+
+RECOVERY_FIXED = [
+    'var total = 0; try { ghost = 10; } catch e { print("assign failed: ${type(e)}"); } try { print("read gave ${ghost}"); } catch e { print("read failed: ${type(e)}"); } '
+    'for i in 1..4 { try { ghost += i; print("add-assign gave ${ghost}"); } catch e { total += i; } } print("sum ${total}");',
+    'try { q = 1; } catch e { print(type(e)); } try { print(q); } catch e { print(type(e)); } var q = 2; print(q); q = 3; print(q);',
+    'fn f() { try { zed -= 1; } catch e { print(type(e)); } try { return zed; } catch e { return type(e); } } print(f()); print(f());',
+]
+
+
 TRY_FIXED = [
     'fn first_negative(items) { var found = nil; for it in items { try { if it < 0 { throw it; } } catch e { found = e; break; } } return found; } '
     'try { print(first_negative([1, 2, -3, 4])); throw "after"; } catch e { print("caught ${e}"); }',
@@ -1170,7 +1237,9 @@ def run(ctx):
     # 4. beyond the fragment: the full reference interpreter
     n_bey = max(20, int((150 if quick else 2500) * SCALE))
     n_try = max(30, int((250 if quick else 3000) * SCALE))
-    bey = list(BEYOND_FIXED) + list(TRY_FIXED) + [beyond_program(g) for _ in range(n_bey)] + [try_program(g) for _ in range(n_try)]
+    n_rec = max(30, int((250 if quick else 3000) * SCALE))
+    bey = (list(BEYOND_FIXED) + list(TRY_FIXED) + list(RECOVERY_FIXED) + [beyond_program(g) for _ in range(n_bey)]
+           + [try_program(g) for _ in range(n_try)] + [recovery_program(g) for _ in range(n_rec)])
     check_beyond(ctx, st, bey, "b")
     ctx.violations[:] = ctx.violations[:5]
     if len(ctx.corr_broken) > 8:
@@ -1188,6 +1257,7 @@ def run(ctx):
         "kind_triples": len([s for s in st.shapes if s[0] in ("kind", "un")]),
         "statement_nestings": len([s for s in st.shapes if s[0] in ("top", "block", "if", "else", "elseif", "while")]),
         "try_in_loop_shapes": len([s for s in st.shapes if s[0] == "try"]),
+        "recovery_shapes": len([s for s in st.shapes if s[0] in ("recover", "recover1")]),
         "function_shapes": len([s for s in st.shapes if "fn" in s[:2] or "return" in s[:2] or "var-lambda" in s[:2]]),
         "samples": [progs[len(PROBES)][0], " ".join(structured[0])[:300], " ".join(structured[n_rand])[:300], bey[-1][:300],
                     show(cases[0][0])[:200]],
